@@ -44,6 +44,7 @@ type Cfg struct {
 	ElementChains    bool // with NoChains: components may still be references to whole single-element files
 	NoExtension      bool // documents are named without a file extension
 	RelativeTwins    bool // twin element files also when the root location is relative (C16 open finding)
+	PathChains       bool // /a0 -> /a1 -> /p0: chains of path item references inside the root document
 	CallbackPathRefs bool // a callback's path item may be a reference to a path of the same document
 	NullEntries      bool // a null entry in encoding maps, sorted before the entry with references (the only map whose null entries stay nil after parsing)
 }
@@ -638,6 +639,13 @@ func Generate(t *rapid.T, cfg Cfg) *Layout {
 		} else {
 			paths[key] = g.object("pathItem", root, depth)
 		}
+	}
+	if cfg.PathChains && g.chance(3, "pathchain") {
+		// path items that are references to path items that are references: the referring ones sort
+		// first, so their targets are not resolved yet when they are met
+		paths["/a0"] = M{"$ref": "#/paths/~1a1"}
+		paths["/a1"] = M{"$ref": "#/paths/~1p0"}
+		g.feat["form:pathitem-chain"]++
 	}
 	// a few components of every kind in the root, some of them references
 	for _, kind := range jv.Keys(Section) {
